@@ -13,18 +13,18 @@ package epic
 //@   ensures (result == nil) == (sender <= now.ext+1000000000 && now.ext <= sender+3000000000)
 
 //@ # the EPIC MAC is an uninterpreted function of exactly the inputs the property names:
-//@ # the hop's full MAC (authenticator), packet id, source ISD-AS and host address, payload length, segment timestamp
-//@ spec func epicMac(auth []byte, pktTs uint32, pktCtr uint32, srcIA uint64, srcType uint8, srcAddr []byte, payloadLen uint16, ts uint32, i int) uint8 uninterpreted
+//@ # the hop's full 16-byte MAC (authenticator), packet id, source ISD-AS and host address, payload length, segment timestamp
+//@ spec func epicMac(a0 uint8, a1 uint8, a2 uint8, a3 uint8, a4 uint8, a5 uint8, a6 uint8, a7 uint8, a8 uint8, a9 uint8, a10 uint8, a11 uint8, a12 uint8, a13 uint8, a14 uint8, a15 uint8, pktTs uint32, pktCtr uint32, srcIA uint64, srcType uint8, srcAddr []byte, payloadLen uint16, ts uint32, i int) uint8 uninterpreted
 
 //@ func CalcMac
 //@   trusted
-//@   requires s != nil
+//@   requires s != nil && len(auth) == 16 && !sameArray(s.RawSrcAddr, buffer)
 //@   modifies arr(buffer)
-//@   ensures result1 == nil ==> len(result0) == 4 && result0[0] == epicMac(auth, pktID.Timestamp, pktID.Counter, uint64(s.SrcIA), uint8(s.SrcAddrType), s.RawSrcAddr, s.PayloadLen, timestamp, 0) && result0[1] == epicMac(auth, pktID.Timestamp, pktID.Counter, uint64(s.SrcIA), uint8(s.SrcAddrType), s.RawSrcAddr, s.PayloadLen, timestamp, 1) && result0[2] == epicMac(auth, pktID.Timestamp, pktID.Counter, uint64(s.SrcIA), uint8(s.SrcAddrType), s.RawSrcAddr, s.PayloadLen, timestamp, 2) && result0[3] == epicMac(auth, pktID.Timestamp, pktID.Counter, uint64(s.SrcIA), uint8(s.SrcAddrType), s.RawSrcAddr, s.PayloadLen, timestamp, 3)
+//@   ensures result1 == nil ==> len(result0) == 4 && result0[0] == epicMac(old(auth[0]), old(auth[1]), old(auth[2]), old(auth[3]), old(auth[4]), old(auth[5]), old(auth[6]), old(auth[7]), old(auth[8]), old(auth[9]), old(auth[10]), old(auth[11]), old(auth[12]), old(auth[13]), old(auth[14]), old(auth[15]), pktID.Timestamp, pktID.Counter, uint64(s.SrcIA), uint8(s.SrcAddrType), s.RawSrcAddr, s.PayloadLen, timestamp, 0) && result0[1] == epicMac(old(auth[0]), old(auth[1]), old(auth[2]), old(auth[3]), old(auth[4]), old(auth[5]), old(auth[6]), old(auth[7]), old(auth[8]), old(auth[9]), old(auth[10]), old(auth[11]), old(auth[12]), old(auth[13]), old(auth[14]), old(auth[15]), pktID.Timestamp, pktID.Counter, uint64(s.SrcIA), uint8(s.SrcAddrType), s.RawSrcAddr, s.PayloadLen, timestamp, 1) && result0[2] == epicMac(old(auth[0]), old(auth[1]), old(auth[2]), old(auth[3]), old(auth[4]), old(auth[5]), old(auth[6]), old(auth[7]), old(auth[8]), old(auth[9]), old(auth[10]), old(auth[11]), old(auth[12]), old(auth[13]), old(auth[14]), old(auth[15]), pktID.Timestamp, pktID.Counter, uint64(s.SrcIA), uint8(s.SrcAddrType), s.RawSrcAddr, s.PayloadLen, timestamp, 2) && result0[3] == epicMac(old(auth[0]), old(auth[1]), old(auth[2]), old(auth[3]), old(auth[4]), old(auth[5]), old(auth[6]), old(auth[7]), old(auth[8]), old(auth[9]), old(auth[10]), old(auth[11]), old(auth[12]), old(auth[13]), old(auth[14]), old(auth[15]), pktID.Timestamp, pktID.Counter, uint64(s.SrcIA), uint8(s.SrcAddrType), s.RawSrcAddr, s.PayloadLen, timestamp, 3)
 
 //@ func VerifyHVF
 //@   props C13
-//@   requires !sameArray(auth, buffer) && (s != nil ==> !sameArray(s.RawSrcAddr, buffer)) && !sameArray(hvf, buffer)
+//@   requires (s != nil ==> !sameArray(s.RawSrcAddr, buffer)) && !sameArray(hvf, buffer)
 //@   modifies arr(buffer)
 //@   ensures result == nil ==> s != nil && len(auth) == 16 && len(hvf) == 4
-//@   ensures result == nil ==> hvf[0] == epicMac(auth, pktID.Timestamp, pktID.Counter, uint64(s.SrcIA), uint8(s.SrcAddrType), s.RawSrcAddr, s.PayloadLen, timestamp, 0) && hvf[1] == epicMac(auth, pktID.Timestamp, pktID.Counter, uint64(s.SrcIA), uint8(s.SrcAddrType), s.RawSrcAddr, s.PayloadLen, timestamp, 1) && hvf[2] == epicMac(auth, pktID.Timestamp, pktID.Counter, uint64(s.SrcIA), uint8(s.SrcAddrType), s.RawSrcAddr, s.PayloadLen, timestamp, 2) && hvf[3] == epicMac(auth, pktID.Timestamp, pktID.Counter, uint64(s.SrcIA), uint8(s.SrcAddrType), s.RawSrcAddr, s.PayloadLen, timestamp, 3)
+//@   ensures result == nil ==> hvf[0] == epicMac(old(auth[0]), old(auth[1]), old(auth[2]), old(auth[3]), old(auth[4]), old(auth[5]), old(auth[6]), old(auth[7]), old(auth[8]), old(auth[9]), old(auth[10]), old(auth[11]), old(auth[12]), old(auth[13]), old(auth[14]), old(auth[15]), pktID.Timestamp, pktID.Counter, uint64(s.SrcIA), uint8(s.SrcAddrType), s.RawSrcAddr, s.PayloadLen, timestamp, 0) && hvf[1] == epicMac(old(auth[0]), old(auth[1]), old(auth[2]), old(auth[3]), old(auth[4]), old(auth[5]), old(auth[6]), old(auth[7]), old(auth[8]), old(auth[9]), old(auth[10]), old(auth[11]), old(auth[12]), old(auth[13]), old(auth[14]), old(auth[15]), pktID.Timestamp, pktID.Counter, uint64(s.SrcIA), uint8(s.SrcAddrType), s.RawSrcAddr, s.PayloadLen, timestamp, 1) && hvf[2] == epicMac(old(auth[0]), old(auth[1]), old(auth[2]), old(auth[3]), old(auth[4]), old(auth[5]), old(auth[6]), old(auth[7]), old(auth[8]), old(auth[9]), old(auth[10]), old(auth[11]), old(auth[12]), old(auth[13]), old(auth[14]), old(auth[15]), pktID.Timestamp, pktID.Counter, uint64(s.SrcIA), uint8(s.SrcAddrType), s.RawSrcAddr, s.PayloadLen, timestamp, 2) && hvf[3] == epicMac(old(auth[0]), old(auth[1]), old(auth[2]), old(auth[3]), old(auth[4]), old(auth[5]), old(auth[6]), old(auth[7]), old(auth[8]), old(auth[9]), old(auth[10]), old(auth[11]), old(auth[12]), old(auth[13]), old(auth[14]), old(auth[15]), pktID.Timestamp, pktID.Counter, uint64(s.SrcIA), uint8(s.SrcAddrType), s.RawSrcAddr, s.PayloadLen, timestamp, 3)
